@@ -594,9 +594,12 @@ def run_world(pid, case, mode="refine", handlers=None, on_step=None):
         name = op["op"]
         w.stats["ops"] += 1
         if name in handlers:
-            before = digest(model.content())
-            handlers[name](w, a, op)
-            w.log.append([name, a, "deriv"])
+            exc = None
+            outcome = "deriv"
+            info = handlers[name](w, a, op)
+            if mode == "refine":
+                w.compare_all(pid, op, outcome, exc, a)
+            w.log.append([name, a, "deriv", info])
             oc = w.stats["outcomes"]
             oc[name + ":deriv"] = oc.get(name + ":deriv", 0) + 1
             continue
@@ -683,3 +686,31 @@ def simplify_ops(case):
                         elif f2 == fld:
                             o2[f2] = o2[f2][:j] + o2[f2][j + 1:]
                     yield c
+
+
+# ------------------------------------------------------- derived-object comparison
+MD_KEYS_OBS = ("nodes_md", "node_md", "all_nodes_md", "edges_md", "edge_md", "all_edges_md", "hmeta")
+NODE_KEYS_OBS = ("nodes", "num_nodes", "inc", "deg", "nbr", "degseq", "degdist", "check_node")
+
+
+def compare_derived(pid, what, kind, obj, expected, universe, ignore_md=True, ignore_nodes=False, ctx=None):
+    """Full public observation of a derived object against an expected Model."""
+    obs = O.observe(kind, obj, universe, [])
+    mobs = expected.observe(universe, [])
+
+    def keep(k):
+        base = k.split("/")[0]
+        if ignore_md and base in MD_KEYS_OBS:
+            return False
+        if ignore_nodes and base in NODE_KEYS_OBS:
+            return False
+        return True
+
+    obs = {k: v for k, v in obs.items() if keep(k)}
+    mobs = {k: v for k, v in mobs.items() if keep(k)}
+    d = O.compare(kind, obs, mobs)
+    if d:
+        cls, path, got, want = d
+        raise Violation(f"{pid}/derive/{what}/{cls}", {
+            "derivation": what, "context": ctx, "observable": path,
+            "library": short(got, 300), "expected": short(want, 300)})
